@@ -148,6 +148,54 @@ def closure_arg_operands(f, c):
     return list(c.args)
 
 
+TRANSPORT = ("std::ops::Try::branch", "std::hint::must_use",
+             "std::convert::From::from", "std::convert::Into::into",
+             "std::ops::FromResidual::from_residual")
+
+
+def forward_users(f, call):
+    """Calls that receive (a projection of) the value returned by `call`,
+    following moves/copies through locals (flow-insensitive, also through
+    locals assigned on several paths) and the `?`/context transport calls."""
+    tainted = set()
+    if call.dst is not None:
+        tainted.add(call.dst[0])
+    changed = True
+    transport = []
+    while changed:
+        changed = False
+        for bb in range(len(f.blocks)):
+            if f.is_cleanup(bb):
+                continue
+            for s in f.stmts(bb):
+                if s[0] != "=":
+                    continue
+                dst = s[1][0]
+                if dst in tainted:
+                    continue
+                rv = s[2]
+                srcs = [p[0] for p in mir.rvalue_places(rv)] if rv[0] in ("use", "ref", "cfd", "cast") else []
+                if any(x in tainted for x in srcs):
+                    tainted.add(dst)
+                    changed = True
+            d = f.call_at(bb)
+            if d is None or d.dst is None or d.dst[0] in tainted:
+                continue
+            dn = d.declared or ""
+            if (dn in TRANSPORT or dn.endswith("ResultExt::context")) and d.args \
+                    and mir.is_place_operand(d.args[0]) and mir.op_place(d.args[0])[0] in tainted:
+                tainted.add(d.dst[0])
+                changed = True
+    users = []
+    for d in f.calls():
+        dn = d.declared or ""
+        if d.bb == call.bb or dn in TRANSPORT or dn.endswith("ResultExt::context"):
+            continue
+        if any(mir.is_place_operand(a) and mir.op_place(a)[0] in tainted for a in d.args):
+            users.append(d)
+    return users
+
+
 def try_chain_source(f, operand, max_steps=12):
     """Resolve an operand through `?` (Try::branch Continue payload),
     snafu context, and Ok/Some payload projections to the call that produced
